@@ -16,7 +16,7 @@ FILES = [
     "qucumber/rbm/binary_rbm.py",
 ]
 THEOREMS = {
-    "psi": "C01_normSq_psi_positive/complex, C01_psi_polar",
+    "psi": "C01_normSq_psi_positive / C01_normSq_psi_complex, C01_psi_polar",
     "probability": "C01_hidden_marginal",
     "normalization": "C01_normalization",
     "phase": "C01_phase",
@@ -24,7 +24,8 @@ THEOREMS = {
 }
 REQUIRED_THEOREMS = ['C01_hidden_marginal', 'C01_normSq_psi_positive', 'C01_normSq_psi_complex', 'C01_normalization', 'C01_unit_norm', 'C01_modulus_indep_phase_net', 'C01_phase', 'C01_psi_polar', 'C01_positive_real_pos']
 RULE = ("case = (state kind, n, h, parameter scale, parameters); generated with every weight/bias = scale*N(0,1) "
-        "(scale in {0,0.1,1,3,10,30}); all 2^n basis states evaluated in vector and batched call forms; "
+        "(scale in {0,0.1,1,3,10,30}, plus overflow probes at scale 100 / 300 that are compared in the LOG domain); all 2^n basis states evaluated in the "
+        "batched form, in the vector form (every row) and in a rank-3 batch-of-batches form; "
         "each case is evaluated, then re-parametrised IN PLACE and evaluated again on the same state object and the same space tensors (history); non-trivial iff some visible bias != 0 and some hidden bias != 0 and (h != n or scale >= 1); distinct by hash of the case")
 
 
@@ -39,6 +40,16 @@ def brute_marginal(p, v):
     for hcfg in itertools.product([0.0, 1.0], repeat=len(c)):
         tot += np.exp(b @ v + np.dot(hcfg, pre))
     return tot
+
+
+def log_marginal(p, v):
+    """log Σ_h exp(b·v + Σ_i h_i (c_i + W_i·v)) by explicit enumeration with a stable log-sum-exp (independent of model and code)"""
+    W = np.asarray(p["W"], dtype=np.float64).reshape(len(p["c"]), len(p["b"]))
+    b = np.asarray(p["b"]); c = np.asarray(p["c"]); v = np.asarray(v, dtype=np.float64)
+    pre = W @ v + c
+    terms = np.array([b @ v + np.dot(hcfg, pre) for hcfg in itertools.product([0.0, 1.0], repeat=len(c))])
+    m = terms.max()
+    return float(m + np.log(np.exp(terms - m).sum()))
 
 
 def one_case(ctx, kind, n, h, scale, am, ph, tag=None, am2=None, ph2=None):
@@ -91,6 +102,50 @@ def _eval(ctx, st, rows, space_t, gen_space, kind, n, h, scale, am, ph, before):
     else:
         ctx.oracle("phase==0", bool(np.all(phase == 0)), case, sig="pos/phase-oracle")
     if big:
+        # beyond the exp domain (some |E| > 600): everything is compared in the LOG domain, on the rows where the float value is finite and non-zero
+        with np.errstate(all="ignore"):
+            amp = st.amplitude(space_t).numpy().copy()
+            psi = st.psi(space_t).numpy().copy()
+            p1 = st.probability(space_t, 1.0).numpy().copy()
+            Z = float(st.normalization(gen_space))
+            fin = np.isfinite(p1) & (p1 > 0) & np.isfinite(amp) & (amp > 0)
+            modsq = psi[0] ** 2 + psi[1] ** 2
+            fin2 = fin & np.isfinite(modsq) & (modsq > 0)
+            ctx.count("overflow_regime:" + ("all_rows_finite" if fin.all() else "some_rows_inf_or_0"))
+            ltol = lambda x: 1e-9 * (1.0 + abs(x))  # noqa: E731
+            ctx.oracle("no NaN beyond the exp domain", not (np.isnan(amp).any() or np.isnan(p1).any() or np.isnan(psi).any() or np.isnan(Z)), case,
+                       sig=f"{kind}/log/nan", theorem="C01_positive_real_pos / C01_amplitude_eq (values are exp of a finite number: +inf or 0 at worst)")
+            ctx.oracle("log probability == -E", bool(np.all(np.abs(np.log(p1[fin]) + E[fin]) <= [ltol(x) for x in E[fin]])), case,
+                       sig=f"{kind}/log/probability", theorem="C01_hidden_marginal")
+            ctx.oracle("2 log amplitude == log probability", bool(np.all(np.abs(2 * np.log(amp[fin]) - np.log(p1[fin])) <= [ltol(x) for x in E[fin]])), case,
+                       sig=f"{kind}/log/amplitude", theorem="C01_amplitude_eq")
+            ctx.oracle("log |psi|^2 == log probability", bool(np.all(np.abs(np.log(modsq[fin2]) - np.log(p1[fin2])) <= [ltol(x) for x in E[fin2]])), case,
+                       sig=f"{kind}/log/born", theorem="C01_normSq_psi_positive" if kind == "pos" else "C01_normSq_psi_complex")
+            if h <= 6:
+                lm = np.array([log_marginal(am, v) for v in rows])
+                ctx.oracle("-E == log of the hidden marginal (all rows, log domain)", bool(np.all(np.abs(-E - lm) <= [ltol(x) for x in lm])), case,
+                           detail={"minusE": (-E).tolist(), "log_marginal": lm.tolist()}, sig=f"{kind}/log/marginal", theorem="C01_hidden_marginal")
+            if np.isfinite(Z) and Z > 0:
+                m_ = float(np.max(-E))
+                ctx.oracle("log Z == logsumexp(-E)", abs(np.log(Z) - (m_ + np.log(np.exp(-E - m_).sum()))) <= ltol(m_), case,
+                           sig=f"{kind}/log/normalization", theorem="C01_normalization")
+            if kind == "pos":
+                ctx.oracle("positive real nonneg (overflow regime)", bool(np.all(psi[1] == 0) and np.all(psi[0] >= 0)), case, sig="pos/real-nonneg", theorem="C01_positive_real_pos")
+            if model is not None:
+                mamp, mp1 = mget("amplitude"), mget("prob1")
+                mfin = fin & np.isfinite(mp1) & (mp1 > 0) & np.isfinite(mamp) & (mamp > 0)
+                sc = float(np.max(np.abs(E))) + 1
+                ctx.point("log amplitude", "property", np.log(amp[mfin]), np.log(mamp[mfin]), case, scale=sc, theorem=THEOREMS["amplitude"], sig=f"{kind}/log/amplitude-model")
+                ctx.point("log probability", "property", np.log(p1[mfin]), np.log(mp1[mfin]), case, scale=sc, theorem=THEOREMS["probability"], sig=f"{kind}/log/probability-model")
+                mm = mget("psi_re") ** 2 + mget("psi_im") ** 2
+                mfin2 = fin2 & np.isfinite(mm) & (mm > 0)
+                ctx.point("log |psi|^2", "property", np.log(modsq[mfin2]), np.log(mm[mfin2]), case, scale=sc, theorem=THEOREMS["psi"], sig=f"{kind}/log/psi-model")
+                ctx.point("psi direction", "property", np.r_[psi[0][mfin2], psi[1][mfin2]] / np.sqrt(np.r_[modsq[mfin2], modsq[mfin2]]),
+                          np.r_[mget("psi_re")[mfin2], mget("psi_im")[mfin2]] / np.sqrt(np.r_[mm[mfin2], mm[mfin2]]), case, scale=1.0,
+                          theorem="C01_psi_polar", sig=f"{kind}/log/psi-direction")
+                mZ = float(unbits([model["Z"]])[0])
+                if np.isfinite(Z) and Z > 0 and np.isfinite(mZ) and mZ > 0:
+                    ctx.point("log normalization", "property", [np.log(Z)], [np.log(mZ)], case, scale=sc, theorem=THEOREMS["normalization"], sig=f"{kind}/log/normalization-model")
         return
     amp = st.amplitude(space_t).numpy().copy()
     psi = st.psi(space_t).numpy().copy()
@@ -110,7 +165,7 @@ def _eval(ctx, st, rows, space_t, gen_space, kind, n, h, scale, am, ph, before):
     tol = lambda x: 1e-9 * max(sc, 1e-300) + 1e-7 * abs(x)  # noqa: E731
     modsq = psi[0] ** 2 + psi[1] ** 2
     ctx.oracle("|psi|^2==probability", bool(np.all(np.abs(modsq - p1) <= [tol(x) for x in p1])), case,
-               detail={"modsq": modsq.tolist(), "p": p1.tolist()}, sig=f"{kind}/born", theorem="C01_normSq_psi")
+               detail={"modsq": modsq.tolist(), "p": p1.tolist()}, sig=f"{kind}/born", theorem="C01_normSq_psi_positive" if kind == "pos" else "C01_normSq_psi_complex")
     ctx.oracle("Z==sum p", abs(Z - p1.sum()) <= tol(Z) * len(rows), case, detail={"Z": Z, "sum": float(p1.sum())},
                sig=f"{kind}/norm-sum", theorem="C01_normalization")
     ctx.oracle("sum p/Z==1", abs(pZ.sum() - 1) <= 1e-7, case, detail={"sum": float(pZ.sum())}, sig=f"{kind}/unit", theorem="C01_unit_norm")
@@ -130,13 +185,35 @@ def _eval(ctx, st, rows, space_t, gen_space, kind, n, h, scale, am, ph, before):
                    sig="cplx/modulus-indep", theorem="C01_modulus_indep_phase_net")
         qc.set_rbm(st.rbm_ph, ph)
     # call forms: 1-D vector form equals the row of the batched form
-    for k in ([0, len(rows) - 1] if len(rows) > 1 else [0]):
+    for k in range(len(rows)):
         v = space_t[k]
         ok = (abs(float(st.probability(v, 1.0)) - p1[k]) <= tol(p1[k])
               and np.all(np.abs(st.psi(v).numpy().ravel() - psi[:, k]) <= tol(np.sqrt(p1[k])))
               and abs(float(st.amplitude(v)) - amp[k]) <= tol(np.sqrt(p1[k]))
               and abs(float(st.phase(v)) - phase[k]) <= 1e-9 * (1 + abs(phase[k])))
         ctx.oracle("vector form == batched row", bool(ok), {**case, "row": k}, sig=f"{kind}/call-form", theorem="batched form is the map of the vector form (model by construction)")
+    # rank-3 "batch of batches" (the shape unitaries._rotate_basis_state feeds to psi): every value has shape v.shape[:-1] and equals the
+    # batched rows. PositiveWaveFunction.phase is outside the statement (SCOPE NOTE in notes/C01.md: it returns zeros(v.shape[0]) there);
+    # only its values (all zero) are checked and its shape class is counted.
+    det3 = None
+    try:
+        v3 = torch.stack([space_t, space_t.flip(0)])
+        sel = lambda x: np.stack([x, x[..., ::-1]], axis=-2)  # noqa: E731
+        amp3, psi3, p3 = st.amplitude(v3).numpy(), st.psi(v3).numpy(), st.probability(v3, 1.0).numpy()
+        ok3 = (amp3.shape == tuple(v3.shape[:-1]) and p3.shape == tuple(v3.shape[:-1]) and psi3.shape == (2,) + tuple(v3.shape[:-1])
+               and np.allclose(amp3, sel(amp), rtol=1e-9, atol=1e-300) and np.allclose(p3, sel(p1), rtol=1e-9, atol=1e-300)
+               and np.allclose(psi3, sel(psi), rtol=1e-9, atol=1e-12 * np.sqrt(sc)))
+        ph3 = st.phase(v3).numpy()
+        if kind == "cplx":
+            ok3 = ok3 and ph3.shape == tuple(v3.shape[:-1]) and np.all(np.abs(ph3 - sel(phase)) <= 1e-9 * (1 + np.abs(sel(phase))))
+        else:
+            ok3 = ok3 and bool(np.all(ph3 == 0))
+            ctx.count("pos/phase(rank-3).shape=" + ("v.shape[:-1]" if ph3.shape == tuple(v3.shape[:-1]) else "(v.shape[0],)" if ph3.shape == (v3.shape[0],) else str(ph3.shape)))
+        det3 = {"shapes": {"amplitude": list(amp3.shape), "psi": list(psi3.shape), "probability": list(p3.shape), "phase": list(ph3.shape)}}
+    except Exception as e:  # noqa: BLE001  (a call form that raises is a failed call form, reported with the case)
+        ok3, det3 = False, {"exception": type(e).__name__, "message": str(e)[:200]}
+    ctx.oracle("rank-3 batch form == batched rows (shape v.shape[:-1])", bool(ok3), case, detail=det3,
+               sig=f"{kind}/call-form-rank3", theorem="batched form is the map of the vector form (model by construction)")
 
 
 def gen_cases(ctx, thorough):
@@ -153,10 +230,25 @@ def gen_cases(ctx, thorough):
                 yield kind, n, h, scale, am, ph
 
 
+def overflow_probes(ctx, thorough):
+    """scale 100 / 300: |E| > 600 on some rows, so exp(-E) leaves the float64 range in one or both directions (log-domain branch of _eval)"""
+    for _ in range(4 if thorough else 1):
+        for scale in (100.0, 300.0):
+            for kind in ("pos", "cplx"):
+                n, h = ctx.rng.choice([2, 3, 4]), ctx.rng.choice([2, 3, 4])
+                am = qc.rand_rbm_params(ctx.rng, n, h, scale)
+                ph = qc.rand_rbm_params(ctx.rng, n, h, 3.0) if kind == "cplx" else None
+                yield kind, n, h, scale, am, ph
+
+
 def run(ctx):
     ctx.rule = RULE
     for (kind, n, h, scale, am, ph) in gen_cases(ctx, ctx.tier == "thorough"):
         am2 = qc.rand_rbm_params(ctx.rng, n, h, min(scale, 3.0) if scale else 0.5)
+        ph2 = qc.rand_rbm_params(ctx.rng, n, h, 1.0) if kind == "cplx" else None
+        one_case(ctx, kind, n, h, scale, am, ph, am2=am2, ph2=ph2)
+    for (kind, n, h, scale, am, ph) in overflow_probes(ctx, ctx.tier == "thorough"):
+        am2 = qc.rand_rbm_params(ctx.rng, n, h, scale)
         ph2 = qc.rand_rbm_params(ctx.rng, n, h, 1.0) if kind == "cplx" else None
         one_case(ctx, kind, n, h, scale, am, ph, am2=am2, ph2=ph2)
 
